@@ -45,6 +45,8 @@ for d in sorted(glob.glob(os.path.join(ROOT, 'seeded', '*'))):
         continue
     meta = json.load(open(os.path.join(d, 'meta.json')))
     res = '-'
+    if meta.get('retired'):
+        res = 'retired: ' + meta['retired']
     dp = os.path.join(d, 'detection.json')
     if os.path.exists(dp):
         det_ = json.load(open(dp))
